@@ -471,6 +471,56 @@ def repro_pool_instance(case, mode, seed, all_labeled=False):
     return findings, info
 
 
+def _hide_some(data, k=2):
+    """An earlier labeling state of the same pool: `k` of the labeled rows are still unlabeled."""
+    y = data["y"]
+    lab = np.where(~np.isnan(y if y.ndim == 1 else y[:, 0]))[0]
+    for i in lab[:: max(1, len(lab) // k)][:k]:
+        y[i] = np.nan
+    return data
+
+
+def repro_pool_history(case, mode, seed):
+    """A pool query is a function of the constructor parameters and the call arguments: a strategy object that has
+    already answered another query (same X, an earlier labeling state, another candidate mode and batch size) returns
+    what a freshly constructed strategy returns for the same call."""
+    findings, info = [], {}
+    modes = list(case.cand_modes)
+    other_mode = modes[(modes.index(mode) + 1) % len(modes)] if mode in modes else modes[0]
+    try:
+        import inspect
+
+        has_update = "update" in inspect.signature(case.build().query).parameters
+
+        def main_kw():
+            kw = case.query_kwargs(case.data(seed), case.models(), mode)
+            if has_update:
+                # a documented cache (ProbCover: `update=False` re-uses distances and delta_max of the first call by
+                # design): the statement is about what a call computes when it is told to compute everything
+                kw["update"] = True
+            return kw
+
+        np.random.seed(GLOBAL_SEEDS[0])
+        r_fresh = snap.out_canon(_call(case.build().query, **main_kw()))
+        np.random.seed(GLOBAL_SEEDS[0])
+        r_fresh2 = snap.out_canon(_call(case.build().query, **main_kw()))
+        qs = case.build()
+        kw0 = case.query_kwargs(_hide_some(case.data(seed)), case.models(), other_mode)
+        kw0["batch_size"] = 3
+        try:
+            np.random.seed(GLOBAL_SEEDS[1])
+            _call(qs.query, **kw0)
+        except Exception as e:  # the earlier call may be outside the strategy's domain: then there is no history
+            return findings, dict(raised=f"Skip: earlier call {type(e).__name__}")
+        np.random.seed(GLOBAL_SEEDS[0])
+        r_used = snap.out_canon(_call(qs.query, **main_kw()))
+    except Exception as e:
+        return findings, dict(raised=f"{type(e).__name__}: {str(e)[:100]}")
+    if r_fresh == r_fresh2 and r_used != r_fresh:
+        findings.append(dict(kind="history-dependence", name="query", what="a strategy that has answered an earlier query (same X, earlier labeling state, other candidates / batch size) returns a different result than a freshly constructed strategy for the same call"))
+    return findings, info
+
+
 def _tie(data):
     """Make utilities tie: duplicate the unlabeled rows (and candidate rows)."""
     X = data["X"]
